@@ -3,48 +3,47 @@ use crate::error::Qcow2Result;
 use crate::helpers::IntAlignment;
 use crate::meta::{Mapping, MappingSource, Table, TableEntry};
 use futures_locks::RwLock as AsyncRwLock;
-use std::collections::HashMap;
+use std::collections::BTreeMap;
 use std::ops::RangeInclusive;
 
-/// Collect the cluster ranges built by `add_used_cluster_to_set` into a
-/// sorted, deduplicated list
-fn sorted_ranges(set: &HashMap<u64, RangeInclusive<u64>>) -> Vec<&RangeInclusive<u64>> {
-    let mut res: Vec<_> = set.values().collect();
-    res.sort_by_key(|range| *range.start());
-    res.dedup();
-    res
+/// The clusters in use, as disjoint and non-adjacent ranges: start -> end
+/// (inclusive)
+type UsedSet = BTreeMap<u64, u64>;
+
+/// The ranges built by `add_used_cluster_to_set`, sorted
+fn sorted_ranges(set: &UsedSet) -> Vec<RangeInclusive<u64>> {
+    set.iter().map(|(start, end)| *start..=*end).collect()
 }
 
 impl<T: Qcow2IoOps> Qcow2Dev<T> {
-    fn add_used_cluster_to_set(ranges: &mut HashMap<u64, RangeInclusive<u64>>, num: u64) {
+    /// Add one cluster. A cluster may be added more than once (compressed
+    /// clusters share host clusters, and the clusters reserved for a table
+    /// may hold something else as well): that must not change the set.
+    fn add_used_cluster_to_set(ranges: &mut UsedSet, num: u64) {
         let mut start = num;
-        let mut end = num;
 
-        if num > 0 {
-            if let Some(range) = ranges.remove(&(num - 1)) {
-                start = *range.start();
-                ranges.remove(&start);
+        // the range which starts at or before this cluster
+        if let Some((&s, &e)) = ranges.range(..=num).next_back() {
+            if e >= num {
+                return;
+            }
+            if e + 1 == num {
+                start = s;
             }
         }
 
-        if let Some(range) = ranges.remove(&(num + 1)) {
-            end = *range.end();
-            ranges.remove(&end);
-        }
+        let end = match num.checked_add(1).and_then(|next| ranges.remove(&next)) {
+            Some(e) => e,
+            None => num,
+        };
 
-        if let Some(range) = ranges.remove(&num) {
-            start = start.min(*range.start());
-            end = end.max(*range.end());
-        }
-
-        ranges.insert(start, start..=end);
-        ranges.insert(end, start..=end);
+        ranges.insert(start, end);
     }
 
     async fn add_table_clusters<B: Table>(
         &self,
         table: &AsyncRwLock<B>,
-        ranges: &mut HashMap<u64, RangeInclusive<u64>>,
+        ranges: &mut UsedSet,
     ) {
         let t = table.read().await;
 
@@ -59,7 +58,7 @@ impl<T: Qcow2IoOps> Qcow2Dev<T> {
 
     async fn add_refcount_table_clusters(
         &self,
-        ranges: &mut HashMap<u64, RangeInclusive<u64>>,
+        ranges: &mut UsedSet,
     ) -> Qcow2Result<()> {
         let info = &self.info;
         let rt_range = {
@@ -77,7 +76,7 @@ impl<T: Qcow2IoOps> Qcow2Dev<T> {
     }
     async fn add_l1_table_clusters(
         &self,
-        ranges: &mut HashMap<u64, RangeInclusive<u64>>,
+        ranges: &mut UsedSet,
     ) -> Qcow2Result<()> {
         let info = &self.info;
         let cls_size = info.cluster_size();
@@ -103,7 +102,7 @@ impl<T: Qcow2IoOps> Qcow2Dev<T> {
 
     async fn add_data_clusters(
         &self,
-        ranges: &mut HashMap<u64, RangeInclusive<u64>>,
+        ranges: &mut UsedSet,
     ) -> Qcow2Result<(usize, usize)> {
         let info = &self.info;
         let end = info.virtual_size();
@@ -144,7 +143,7 @@ impl<T: Qcow2IoOps> Qcow2Dev<T> {
         Ok((allocated, compressed))
     }
 
-    fn is_allocated_cluster_in_use(set: &Vec<&RangeInclusive<u64>>, cluster: u64) -> bool {
+    fn is_allocated_cluster_in_use(set: &[RangeInclusive<u64>], cluster: u64) -> bool {
         set.iter().any(|range| range.contains(&cluster))
     }
 
@@ -154,25 +153,25 @@ impl<T: Qcow2IoOps> Qcow2Dev<T> {
     where
         F: Fn(&str, &Vec<&RangeInclusive<u64>>, Option<(usize, usize)>),
     {
-        let mut set: HashMap<u64, RangeInclusive<u64>> = HashMap::new();
+        let mut set = UsedSet::new();
         self.add_refcount_table_clusters(&mut set).await?;
-        cls_usage("refcount_table", &sorted_ranges(&set), None);
+        cls_usage("refcount_table", &sorted_ranges(&set).iter().collect(), None);
 
-        let mut set: HashMap<u64, RangeInclusive<u64>> = HashMap::new();
+        let mut set = UsedSet::new();
         self.add_l1_table_clusters(&mut set).await?;
-        cls_usage("l1_table", &sorted_ranges(&set), None);
+        cls_usage("l1_table", &sorted_ranges(&set).iter().collect(), None);
 
-        let mut set: HashMap<u64, RangeInclusive<u64>> = HashMap::new();
+        let mut set = UsedSet::new();
         self.add_table_clusters(&self.l1table, &mut set).await;
-        cls_usage("l2_tables", &sorted_ranges(&set), None);
+        cls_usage("l2_tables", &sorted_ranges(&set).iter().collect(), None);
 
-        let mut set: HashMap<u64, RangeInclusive<u64>> = HashMap::new();
+        let mut set = UsedSet::new();
         self.add_table_clusters(&self.reftable, &mut set).await;
-        cls_usage("refblock_tables", &sorted_ranges(&set), None);
+        cls_usage("refblock_tables", &sorted_ranges(&set).iter().collect(), None);
 
-        let mut set: HashMap<u64, RangeInclusive<u64>> = HashMap::new();
+        let mut set = UsedSet::new();
         let stat_res = self.add_data_clusters(&mut set).await?;
-        cls_usage("data", &sorted_ranges(&set), Some(stat_res));
+        cls_usage("data", &sorted_ranges(&set).iter().collect(), Some(stat_res));
 
         Ok(())
     }
@@ -180,7 +179,7 @@ impl<T: Qcow2IoOps> Qcow2Dev<T> {
     /// check if any cluster is leaked
     async fn check_cluster_leak(&self) -> Qcow2Result<bool> {
         let info = &self.info;
-        let mut set: HashMap<u64, RangeInclusive<u64>> = HashMap::new();
+        let mut set = UsedSet::new();
         let mut res = false;
 
         //add header cluster into set
@@ -317,7 +316,7 @@ impl<T: Qcow2IoOps> Qcow2Dev<T> {
     /// `nums`; returns its sorted ranges and, per query, whether the cluster
     /// counts as in use
     pub fn verif_used_set(nums: &[u64], queries: &[u64]) -> (Vec<(u64, u64)>, Vec<bool>) {
-        let mut set: HashMap<u64, RangeInclusive<u64>> = HashMap::new();
+        let mut set = UsedSet::new();
         for n in nums {
             Self::add_used_cluster_to_set(&mut set, *n);
         }
